@@ -281,7 +281,8 @@ def translate(repo):
                "         (map2 (fun (b : bool) (f : option Z) => if b then None else f) v_mask (pfo p)).\n")
     fns.append(f"{POP}:Population.update_genome")
     # evaluate: fitnesses[M] = [problem.evaluate(genome, ...) for genome in genomes[M]], M = the rows without a fitness (NaN)
-    fn = find_def(pmod, "evaluate", "Population")
+    from .lazy import normalise as _normalise
+    fn = _normalise(find_def(pmod, "evaluate", "Population"))
     inl = Inliner(fn, POP)
     sets = [s_ for s_ in fn.body if isinstance(s_, ast.Assign) and len(s_.targets) == 1 and isinstance(s_.targets[0], ast.Subscript)]
     others = [s_ for s_ in fn.body if s_ not in sets and not (isinstance(s_, ast.Expr) and isinstance(s_.value, ast.Constant))
@@ -484,13 +485,20 @@ def translate(repo):
                     if isinstance(v_.func, ast.Attribute) and v_.func.attr == "copy" and not v_.args and isinstance(v_.func.value, ast.Name) and v_.func.value.id in sym:
                         sym[t_] = sym[v_.func.value.id]
                         continue
-                    if d_ == "self._mutation" and v_.args and isinstance(v_.args[0], ast.Name) and v_.args[0].id in sym \
+                    def symval(a_):
+                        """a population-valued argument: a tracked local, or a copy of one"""
+                        if isinstance(a_, ast.Name) and a_.id in sym:
+                            return sym[a_.id]
+                        if isinstance(a_, ast.Call) and isinstance(a_.func, ast.Attribute) and a_.func.attr == "copy" and not a_.args and not a_.keywords:
+                            return symval(a_.func.value)
+                        return None
+                    if d_ == "self._mutation" and v_.args and symval(v_.args[0]) is not None \
                             and not any(isinstance(n_, ast.Name) and n_.id in sym for a_ in v_.args[1:] for n_ in ast.walk(a_)):
-                        sym[t_] = f"(mutation {sym[v_.args[0].id]})"
+                        sym[t_] = f"(mutation {symval(v_.args[0])})"
                         continue
-                    if d_ == "self._crossover" and len(v_.args) >= 2 and all(isinstance(a_, ast.Name) and a_.id in sym for a_ in v_.args[:2]) \
+                    if d_ == "self._crossover" and len(v_.args) >= 2 and all(symval(a_) is not None for a_ in v_.args[:2]) \
                             and not any(isinstance(n_, ast.Name) and n_.id in sym for a_ in v_.args[2:] for n_ in ast.walk(a_)):
-                        sym[t_] = f"(crossover {sym[v_.args[0].id]} {sym[v_.args[1].id]})"
+                        sym[t_] = f"(crossover {symval(v_.args[0])} {symval(v_.args[1])})"
                         continue
                 if t_ in sym:
                     raise Unsupported(f"{DE}:{s_.lineno}: {cls}.run: unsupported assignment to a population {ast.unparse(s_)[:100]}")
